@@ -404,8 +404,8 @@ func (tx *Transaction) AddRequestHeader(key string, value string) {
 		//
 		// There is no URL Decode performed no the cookies
 		values := cookies.ParseCookies(value)
-		for k, vr := range values {
-			for _, v := range vr {
+		for _, k := range stringsutil.SortedKeys(values) {
+			for _, v := range values[k] {
 				tx.variables.requestCookies.Add(k, v)
 			}
 		}
@@ -760,8 +760,10 @@ func (tx *Transaction) ProcessConnection(client string, cPort int, server string
 // ExtractGetArguments transforms an url encoded string to a map and creates ARGS_GET
 func (tx *Transaction) ExtractGetArguments(uri string) {
 	data := urlutil.ParseQuery(uri, '&')
-	for k, vs := range data {
-		for _, v := range vs {
+	// Sorted so that the arguments kept under SecArgumentsLimit, and the order
+	// in which names differing only in case are merged, do not depend on map order.
+	for _, k := range stringsutil.SortedKeys(data) {
+		for _, v := range data[k] {
 			tx.AddGetRequestArgument(k, v)
 		}
 	}
